@@ -6,6 +6,7 @@ with the SPEC's formulation (consensus-specs v1.5.0-beta.2 / p2p-interface), whi
 entry was added. The generator only normalises the pick (operand leaves -> regexes, operator and integer offset after
 orienting on the first operand); the resulting Go table is literal data, independent of the tree at check time.
 """
+import os
 import re, subprocess, sys
 
 PICKS = [
@@ -270,7 +271,7 @@ TYPED = [
 CLOSED = ["proto.ProtoArray.Search", "proto.ProtoArray.CanonAtSlot", "proto.ProtoArray.CanonicalChain", "proto.ProtoArray.ClosestToSlot", "proto.ProtoArray.inSubtree"]
 
 def dump():
-    out = subprocess.check_output(["/verif/bin/zrntlint", "cmps"]).decode()
+    out = subprocess.check_output([os.environ.get("ZL_BIN", "/verif/bin/zrntlint"), "cmps"]).decode()
     rows = []
     for line in out.splitlines():
         line, _, rest = line.partition("\t")
@@ -362,7 +363,7 @@ def main():
     for fn in CLOSED:
         out.append("\t%s: true," % gq(fn))
     out.append("}")
-    open("/verif/zrntlint/cmp_table.go", "w").write("\n".join(out) + "\n")
+    open(os.path.join(os.path.dirname(os.path.abspath(__file__)), "cmp_table.go"), "w").write("\n".join(out) + "\n")
     print("entries:", len(PICKS) + len(TYPED) - missing, "missing:", missing)
 
 def gq(s):
